@@ -5,6 +5,7 @@ use std::io::{BufRead, Write};
 mod util;
 mod findrun;
 mod globrun;
+mod pathrun;
 mod xread;
 mod xrun;
 
@@ -70,6 +71,7 @@ fn main() {
             "xrun" => xrun::handle(&rest),
             "find" => findrun::handle(&rest),
             "glob" => globrun::handle(&rest),
+            "paths" => pathrun::handle(&rest),
             _ => "badcase".to_string(),
         });
         let res = res.unwrap_or_else(|_| "panic".to_string());
